@@ -70,7 +70,8 @@ def findings():
            "runs first on every check). `open` entries print a KNOWN-FINDING line and are matched by (property, signature), the "
            "signature being computed by the direct oracle from the failing case's cause; any other failure of the same property is "
            "a VIOLATION. `fixed` entries suppress nothing: the witness stays in the corpus and must pass.\n",
-           f"**Repaired in /repo ({len(rows_fixed)} `fix:` commits; each validated against the changed package's unedited tests; "
+           f"**Repaired in /repo ({len(rows_fixed)} recorded defects, repaired by {len(set(c for _, c, _ in rows_fixed))} `fix:` commits; "
+           "each commit validated against the changed package's unedited tests; "
            "the whole pinned suite of 1086 tests passes with all of them, guard off):**\n",
            "| property | commit | what failed |", "|---|---|---|"]
     for p, c, w in rows_fixed:
